@@ -1,7 +1,7 @@
 #!/bin/bash
 # Idempotent, offline: overlay venv on /venv with the solver wheels.
 set -e
-V=/verif/.venv
+V="$(cd "$(dirname "$0")" && pwd)/.venv"
 STAMP=$V/.ok
 if [ -f "$STAMP" ] && "$V/bin/python" -c "import z3, mpmath, jsonschema" 2>/dev/null; then exit 0; fi
 exec 9>/tmp/.verif-setup.lock
